@@ -16,6 +16,7 @@ import (
 	"math"
 	"math/big"
 	"strings"
+	"sync"
 
 	"oss.terrastruct.com/d2/d2compiler"
 	"oss.terrastruct.com/d2/d2graph"
@@ -29,7 +30,7 @@ import (
 )
 
 func init() {
-	register(&Prop{ID: "C24", Module: "V.C24.Check", Gen: c24Gen, Quick: 130, Thorough: 1500, Shard: 12})
+	register(&Prop{ID: "C24", Module: "V.C24.Check", Gen: c24Gen, Quick: 150, Thorough: 1500, Shard: 30})
 }
 
 // c24Q prints a float64 as an exact Coq rational: (qz n) for integers, (qd m e) = m / 2^e otherwise.
@@ -58,7 +59,14 @@ func c24Finite(fs ...float64) bool {
 	return true
 }
 
-var c24Ruler *textmeasure.Ruler
+// one text ruler per worker (a Ruler caches measurements in plain maps)
+var c24Rulers = make(chan *textmeasure.Ruler, 8)
+
+func init() {
+	for i := 0; i < cap(c24Rulers); i++ {
+		c24Rulers <- nil
+	}
+}
 var c24Engine = "dagre"
 
 func c24Layout(script string) (g *d2graph.Graph, fail string) {
@@ -67,17 +75,19 @@ func c24Layout(script string) (g *d2graph.Graph, fail string) {
 			fail = fmt.Sprintf("panic: %v", e)
 		}
 	}()
-	if c24Ruler == nil {
+	ruler := <-c24Rulers
+	defer func() { c24Rulers <- ruler }()
+	if ruler == nil {
 		r, err := textmeasure.NewRuler()
 		if err != nil {
 			return nil, "ruler: " + err.Error()
 		}
-		c24Ruler = r
+		ruler = r
 	}
 	resolver := func(engine string) (d2graph.LayoutGraph, error) { return d2dagrelayout.DefaultLayout, nil }
 	ctx := d2log.With(context.Background(), slog.New(slog.NewTextHandler(io.Discard, nil)))
 	_, g, err := d2lib.Compile(ctx, script, &d2lib.CompileOptions{
-		Ruler: c24Ruler, Layout: &c24Engine, LayoutResolver: resolver,
+		Ruler: ruler, Layout: &c24Engine, LayoutResolver: resolver,
 	}, nil)
 	if err != nil {
 		return nil, "compile/layout error: " + err.Error()
@@ -128,13 +138,13 @@ type c24Obs struct {
 	coq               string
 	nears             []c24Near
 	nMain, nPts       int
-	nObjNear, nXPts   int
+	nObjNear          int
 	fail              string
 }
 
 // c24Observe projects the laid-out graph to the Coq case.
 func c24Observe(g *d2graph.Graph) (ob c24Obs) {
-	var mains, pts, xpts, ns []string
+	var mains, pts, ns []string
 	for _, o := range g.Objects {
 		if !c24Finite(o.TopLeft.X, o.TopLeft.Y, o.Width, o.Height) {
 			ob.fail = "non-finite geometry on " + o.AbsID()
@@ -154,7 +164,8 @@ func c24Observe(g *d2graph.Graph) (ob c24Obs) {
 			continue // lives in a constant near's own graph: never in g.Objects before its near has been placed, skipped afterwards
 		}
 		if o.OuterNearContainer() != nil {
-			// near: <another shape> on it or on a container above it: a shape of the main diagram that boundingBox skips
+			// near: <another shape> on it or on a container above it: a shape of the main diagram (boundingBox
+			// skipped these before 40b9f8452)
 			ob.nObjNear++
 			mains = append(mains, c24MainTerm("GObjNear", o))
 			continue
@@ -166,22 +177,15 @@ func c24Observe(g *d2graph.Graph) (ob c24Obs) {
 		if c24ConstNearAbove(g, e.Src) || c24ConstNearAbove(g, e.Dst) {
 			continue
 		}
-		skipped := e.Src.OuterNearContainer() != nil || e.Dst.OuterNearContainer() != nil
 		for _, p := range e.Route {
 			if !c24Finite(p.X, p.Y) {
 				ob.fail = "non-finite route point"
 			}
-			t := fmt.Sprintf("(%s, %s)", c24Q(p.X), c24Q(p.Y))
-			if skipped {
-				xpts = append(xpts, t)
-				ob.nXPts++
-			} else {
-				pts = append(pts, t)
-				ob.nPts++
-			}
+			pts = append(pts, fmt.Sprintf("(%s, %s)", c24Q(p.X), c24Q(p.Y)))
+			ob.nPts++
 		}
 	}
-	ob.coq = fmt.Sprintf("Case %s %s %s %s", coqList(mains), coqList(pts), coqList(xpts), coqList(ns))
+	ob.coq = fmt.Sprintf("Case %s %s %s", coqList(mains), coqList(pts), coqList(ns))
 	return
 }
 
@@ -227,6 +231,49 @@ func c24Attrs(r *Rng, b *strings.Builder, ind string, allowOutside bool, isConta
 	}
 }
 
+// c24Names picks the IDs of the main shapes and of the nears.  Besides the neutral m0.. / n0.. scheme the IDs are
+// related as strings: a main ID extends a near ID (n1 / n10, title / title2, t / tx), a near ID extends a main
+// ID, near IDs extend each other, IDs differ only in case -- identity must come from the objects, not from
+// their names.
+func c24Names(r *Rng, nMain, nNear int) (mains, nears []string) {
+	scheme := r.Intn(4)
+	bases := []string{"n", "t", "title", "a", "legend", "x1", "k", "note"}
+	for i := 0; i < nNear; i++ {
+		switch scheme {
+		case 0:
+			nears = append(nears, fmt.Sprintf("n%d", i))
+		case 1, 2:
+			nears = append(nears, bases[i%len(bases)])
+		default: // near IDs extending each other: n1, n10, n100, ...
+			nears = append(nears, "n1"+strings.Repeat("0", i))
+		}
+	}
+	for i := 0; i < nMain; i++ {
+		switch scheme {
+		case 0:
+			mains = append(mains, fmt.Sprintf("m%d", i))
+		case 1: // main extends a near ID
+			mains = append(mains, fmt.Sprintf("%s%d", nears[r.Intn(len(nears))], i))
+		case 2: // mixed: extends a near ID, upper-case twin, or neutral
+			switch r.Intn(3) {
+			case 0:
+				mains = append(mains, fmt.Sprintf("%s_%d", nears[r.Intn(len(nears))], i))
+			case 1:
+				mains = append(mains, fmt.Sprintf("%sZ%d", strings.ToUpper(nears[r.Intn(len(nears))]), i))
+			default:
+				mains = append(mains, fmt.Sprintf("m%d", i))
+			}
+		default: // main IDs are proper prefixes of / extend the n1000.. family
+			if i == 0 {
+				mains = append(mains, "n")
+			} else {
+				mains = append(mains, fmt.Sprintf("n1%s%d", strings.Repeat("0", r.Intn(3)), i+1))
+			}
+		}
+	}
+	return
+}
+
 func c24Script(r *Rng) (script string, class string) {
 	var b strings.Builder
 	if r.Chance(0.3) {
@@ -236,10 +283,12 @@ func c24Script(r *Rng) (script string, class string) {
 	if r.Chance(0.1) {
 		nMain = 0
 	}
+	nNear := r.Range(1, 8)
+	mainName, nearName := c24Names(r, nMain, nNear)
 	var ids []string
 	class = "random"
 	for i := 0; i < nMain; i++ {
-		id := fmt.Sprintf("m%d", i)
+		id := mainName[i]
 		kind := r.Intn(10)
 		switch {
 		case kind < 6: // leaf
@@ -286,10 +335,9 @@ func c24Script(r *Rng) (script string, class string) {
 			}
 		}
 	}
-	nNear := r.Range(1, 8)
 	var nearIDs []string
 	for i := 0; i < nNear; i++ {
-		id := fmt.Sprintf("n%d", i)
+		id := nearName[i]
 		nearIDs = append(nearIDs, id)
 		key := r.Pick(c24Keys)
 		kind := r.Intn(10)
@@ -367,14 +415,17 @@ func c24Corpus() []string {
 	out = append(out, "a -> b\nn: note {near: center-right}\nm: memo {near: top-left}\nb -> n\nn -> m\n")
 	// root-level grid with nears
 	out = append(out, "grid-rows: 2\na; b; c; d\nt: Title {near: top-center}\nf: Footer {near: bottom-left}\n")
+	// IDs related as strings: main shapes whose IDs extend the IDs of nears (and the other way round)
+	out = append(out, "n10 -> n11 -> x\nn1: Title {near: top-center}\nn: Note {near: center-left}\nc: Corner {near: bottom-right}\nx1: Other {near: top-left}\n")
+	out = append(out, "title2 -> b\ntitle2: {width: 500}\ntitle: T {near: top-center}\nlegend: L {near: bottom-right}\nleg: {near: center-right}\nb -> legendary\n")
+	out = append(out, "a: {a1; a2; a1 -> a2}\nab -> a\nA: upper {near: bottom-center}\nab2: {near: top-right; inner}\nabc: {near: bottom-left}\n")
 	// two nears on the same constant
 	out = append(out, "a -> b\nt1: first {near: top-center}\nt2: second title that is long {near: top-center}\nc1: one {near: top-left}\nc2: two {near: top-left}\n")
 	return out
 }
 
-// c24KFObjNear: signature of the known finding -- the main diagram contains a shape whose `near` is another
-// shape (or a descendant of one); boundingBox leaves it out.
-const c24KFObjNear = "C24-object-near-ignored"
+// c24ObjNearScripts: the main diagram contains a shape whose `near` is another shape (boundingBox left those
+// out before 40b9f8452: fixed finding C24-object-near-ignored, see coq/C24/fixed.json).
 
 func c24ObjNearScripts(r *Rng, k int) []string {
 	out := []string{
@@ -404,7 +455,6 @@ func c24Gen(r *Rng, tier string, n int) []Case {
 		list = append(list, in{s, "corpus"})
 	}
 	nSyn := n / 3
-	// always generated; these inputs carry the KF id and the driver suppresses them while the id is listed
 	for _, s := range c24ObjNearScripts(r.Fork(), 8) {
 		list = append(list, in{s, "object-near"})
 	}
@@ -416,28 +466,34 @@ func c24Gen(r *Rng, tier string, n int) []Case {
 		}
 		list = append(list, in{s, cl})
 	}
-	for _, c := range list {
-		cs := Case{Class: c.class, Input: map[string]any{"script": c.script}}
-		g, fail := c24Layout(c.script)
-		if fail != "" {
-			cs.ImplFail = []string{fail}
-			cs.Coq = "Case [] [] [] []"
-			out = append(out, cs)
-			continue
-		}
-		ob := c24Observe(g)
-		if ob.fail != "" {
-			cs.ImplFail = []string{ob.fail}
-		}
-		cs.Coq = ob.coq
-		cs.Impl = map[string]any{"nears": ob.nears, "main_objects": ob.nMain, "route_points": ob.nPts, "shape_near_objects": ob.nObjNear}
-		cs.Nontrivial = ob.nMain > 0 && len(ob.nears) > 0
-		cs.Key = c.script
-		if ob.nObjNear > 0 {
-			cs.KF = []string{c24KFObjNear}
-		}
-		out = append(out, cs)
+	// the layouts are independent of each other and of the Rng: run them on up to 8 workers, keep the order
+	res := make([]Case, len(list))
+	var wg sync.WaitGroup
+	for i, c := range list {
+		wg.Add(1)
+		go func(i int, c in) {
+			defer wg.Done()
+			cs := Case{Class: c.class, Input: map[string]any{"script": c.script}}
+			g, fail := c24Layout(c.script)
+			if fail != "" {
+				cs.ImplFail = []string{fail}
+				cs.Coq = "Case [] [] []"
+				res[i] = cs
+				return
+			}
+			ob := c24Observe(g)
+			if ob.fail != "" {
+				cs.ImplFail = []string{ob.fail}
+			}
+			cs.Coq = ob.coq
+			cs.Impl = map[string]any{"nears": ob.nears, "main_objects": ob.nMain, "route_points": ob.nPts, "shape_near_objects": ob.nObjNear}
+			cs.Nontrivial = ob.nMain+ob.nObjNear > 0 && len(ob.nears) > 0
+			cs.Key = c.script
+			res[i] = cs
+		}(i, c)
 	}
+	wg.Wait()
+	out = append(out, res...)
 	for i := 0; i < nSyn; i++ {
 		out = append(out, c24Synthetic(r.Fork(), i))
 	}
@@ -525,7 +581,7 @@ func c24Synthetic(r *Rng, idx int) (cs Case) {
 		if e := recover(); e != nil {
 			cs.ImplFail = append(cs.ImplFail, fmt.Sprintf("panic: %v", e))
 			if cs.Coq == "" {
-				cs.Coq = "Case [] [] [] []"
+				cs.Coq = "Case [] [] []"
 			}
 		}
 	}()
@@ -540,9 +596,13 @@ func c24Synthetic(r *Rng, idx int) (cs Case) {
 		if len(mains) > 0 && r.Chance(0.3) {
 			parent = mains[r.Intn(len(mains))]
 		}
-		o := c24SynObj(g, parent, fmt.Sprintf("m%d", i), r)
-		if i > 0 && r.Chance(0.12) {
-			o.NearKey, _ = d2parser.ParseKey("m0") // near: <another shape>
+		id := fmt.Sprintf("m%d", i)
+		if idx%2 == 1 { // IDs that extend the IDs n0..n7 of the nears
+			id = fmt.Sprintf("n%d%d", r.Intn(8), i)
+		}
+		o := c24SynObj(g, parent, id, r)
+		if i > 0 && mains[0].Parent == g.Root && r.Chance(0.12) {
+			o.NearKey, _ = d2parser.ParseKey(mains[0].ID) // near: <another shape>
 		}
 		mains = append(mains, o)
 	}
@@ -554,7 +614,7 @@ func c24Synthetic(r *Rng, idx int) (cs Case) {
 		g.Edges = append(g.Edges, e)
 	}
 	// what boundingBox is to see, written down BEFORE the call
-	var mainT, ptT, xptT []string
+	var mainT, ptT []string
 	nObjNear := 0
 	for _, o := range g.Objects {
 		if o.OuterNearContainer() != nil {
@@ -565,14 +625,8 @@ func c24Synthetic(r *Rng, idx int) (cs Case) {
 		}
 	}
 	for _, e := range g.Edges {
-		skipped := e.Src.OuterNearContainer() != nil || e.Dst.OuterNearContainer() != nil
 		for _, p := range e.Route {
-			t := fmt.Sprintf("(%s, %s)", c24Q(p.X), c24Q(p.Y))
-			if skipped {
-				xptT = append(xptT, t)
-			} else {
-				ptT = append(ptT, t)
-			}
+			ptT = append(ptT, fmt.Sprintf("(%s, %s)", c24Q(p.X), c24Q(p.Y)))
 		}
 	}
 	// the nears, each in its own graph like ExtractSubgraph(curr, true) leaves them
@@ -651,13 +705,10 @@ func c24Synthetic(r *Rng, idx int) (cs Case) {
 	if len(g.Objects) != want {
 		cs.ImplFail = append(cs.ImplFail, fmt.Sprintf("g.Objects has %d entries, want %d", len(g.Objects), want))
 	}
-	cs.Coq = fmt.Sprintf("Case %s %s %s %s", coqList(mainT), coqList(ptT), coqList(xptT), coqList(nearT))
+	cs.Coq = fmt.Sprintf("Case %s %s %s", coqList(mainT), coqList(ptT), coqList(nearT))
 	cs.Input = map[string]any{"synthetic": idx, "main_objects": nMain, "nears": nNear}
 	cs.Impl = map[string]any{"nears": readable}
-	cs.Nontrivial = nMain-nObjNear > 0
+	cs.Nontrivial = nMain > 0
 	cs.Key = cs.Coq
-	if nObjNear > 0 {
-		cs.KF = []string{c24KFObjNear}
-	}
 	return cs
 }
